@@ -47,18 +47,20 @@ type c15edit struct {
 }
 
 type c15scn struct {
-	Kind   string    `json:"kind"` // window | stop | run
-	Site   string    `json:"site,omitempty"`
-	Prog   []string  `json:"prog"`
-	Edits0 []c15edit `json:"edits0"`
-	Bos    bool      `json:"breakonstart"`
-	Boe    bool      `json:"breakonerror"`
-	Multi  bool      `json:"multi"`
-	Seed   int64     `json:"seed"`
-	Window int       `json:"window_percent"`   // share of continues issued inside the window
-	Steps  bool      `json:"steps"`            // use step commands (else resume only)
-	Script []string  `json:"script,omitempty"` // forced commands for the first suspensions
-	Sched  []string  `json:"schedule,omitempty"`
+	Kind      string    `json:"kind"` // window | stop | run
+	Site      string    `json:"site,omitempty"`
+	Prog      []string  `json:"prog"`
+	Edits0    []c15edit `json:"edits0"`
+	Bos       bool      `json:"breakonstart"`
+	Boe       bool      `json:"breakonerror"`
+	Multi     bool      `json:"multi"`
+	Seed      int64     `json:"seed"`
+	Window    int       `json:"window_percent"`       // share of continues issued inside the window
+	Steps     bool      `json:"steps"`                // use step commands (else resume only)
+	EditLines []int     `json:"edit_lines,omitempty"` // small set of lines the edits at suspensions are drawn from (with repetition)
+	Threads   int       `json:"threads,omitempty"`    // stopall / contall: programs debugged at the same time
+	Script    []string  `json:"script,omitempty"`     // forced commands for the first suspensions
+	Sched     []string  `json:"schedule,omitempty"`
 }
 
 type c15ev struct {
@@ -238,7 +240,17 @@ func c15run(scn c15scn, debug bool) c15obs {
 				if nth := len(obs.Susp); nth < len(scn.Script) {
 					s.Cmd = map[string]util.ContType{"resume": util.Resume, "stepin": util.StepIn, "stepover": util.StepOver, "stepout": util.StepOut}[scn.Script[nth]]
 				}
-				if !scn.Multi && scn.Kind == "run" && rng.Intn(10) < 3 && lines > 0 {
+				if !scn.Multi && scn.Kind == "run" && len(scn.EditLines) > 0 {
+					// 0-3 edits over the scenario's small set of lines: repeated edits, disable before
+					// set, set after remove ... all occur
+					for n := []int{0, 0, 1, 1, 2, 3}[rng.Intn(6)]; n > 0; n-- {
+						e := c15edit{scn.EditLines[rng.Intn(len(scn.EditLines))], []string{"set", "disable", "remove"}[rng.Intn(3)]}
+						s.Edits = append(s.Edits, e)
+						if rng.Intn(4) == 0 {
+							s.Edits = append(s.Edits, e)
+						}
+					}
+				} else if !scn.Multi && scn.Kind == "run" && rng.Intn(10) < 3 && lines > 0 {
 					s.Edits = append(s.Edits, c15edit{1 + rng.Intn(lines), []string{"set", "set", "disable", "remove"}[rng.Intn(4)]})
 				}
 				if rng.Intn(100) < scn.Window {
@@ -424,6 +436,10 @@ func c15emitDecision(c *Ctx, scn c15scn, obs c15obs) {
 
 // returns false when the hook points are missing from the repository
 func c15one(c *Ctx, scn c15scn) bool {
+	if scn.Kind == "stopall" || scn.Kind == "contall" {
+		c15group(c, scn)
+		return true
+	}
 	var p1, p2 c15obs
 	if scn.Kind == "run" {
 		p1 = c15run(scn, false)
@@ -740,6 +756,25 @@ func c15edits0(rng *rand.Rand, lines int, dense bool) []c15edit {
 	return es
 }
 
+// c15history draws a breakpoint edit history from {set, disable, remove} over a small set of
+// lines, with repetition: the same edit twice, disable before set, set after remove, disable of a
+// line that never had a breakpoint.
+func c15history(rng *rand.Rand, lines int) ([]int, []c15edit) {
+	var set []int
+	for n := 2 + rng.Intn(3); n > 0; n-- {
+		set = append(set, 1+rng.Intn(lines))
+	}
+	var es []c15edit
+	for n := 2 + rng.Intn(8); n > 0; n-- {
+		e := c15edit{set[rng.Intn(len(set))], []string{"set", "set", "disable", "disable", "remove"}[rng.Intn(5)]}
+		if len(es) > 0 && rng.Intn(4) == 0 {
+			e = es[len(es)-1] // the same edit once more
+		}
+		es = append(es, e)
+	}
+	return set, es
+}
+
 // the fixed corpus: the witness schedule of the repaired defect at its three wait sites, the
 // same for StopThreads, and hand-written programs around the suspend rule
 func c15corpus() []c15scn {
@@ -749,6 +784,9 @@ func c15corpus() []c15scn {
 	stepProg := []string{"a := 1", "b := 2", "c := a + b", "log(c)"}
 	funProg := []string{"func g(p) {", "  q := p + 1", "  return q", "}", "a := 1", "b := g(a) + g(2)", "log(b); log(a)", "c := g(", "  b)", "log(c)"}
 	loopProg := []string{"a := 0", "for i in range(0, 3) {", "  a := a + i", "  log(a)", "}", "for i in range(0, 2) { log(i) }", "log(\"e\")"}
+	sixProg := []string{"log(1)", "log(2)", "log(3)", "log(4)", "log(5)", "log(6)"}
+	sinkProg := []string{"sink s1", "  kindmatch [\"k.a\"],", "  {", "    log(\"s1 \", event.state.v)", "    log(\"s1b \", event.state.v)", "  }",
+		"addEvent(\"e1\", \"k.a\", {\"v\" : 1})", "addEvent(\"e2\", \"k.a\", {\"v\" : 2})", "addEvent(\"e3\", \"k.a\", {\"v\" : 3})", "addEvent(\"e4\", \"k.a\", {\"v\" : 4})", "log(\"main\")"}
 	return []c15scn{
 		{Kind: "window", Site: "breakpoint", Prog: []string{"log(1)", "log(2)", "log(3)"}, Edits0: []c15edit{{2, "set"}}, Seed: 1, Window: 100, Sched: win},
 		{Kind: "window", Site: "step", Prog: stepProg, Edits0: []c15edit{{2, "set"}}, Seed: 5, Window: 100, Script: []string{"stepin", "stepover"}, Sched: win},
@@ -761,6 +799,17 @@ func c15corpus() []c15scn {
 		{Kind: "run", Prog: loopProg, Edits0: []c15edit{{3, "set"}, {6, "set"}, {4, "set"}, {4, "remove"}}, Seed: 5, Window: 100},
 		{Kind: "run", Prog: errProg, Edits0: []c15edit{{2, "set"}, {7, "set"}}, Boe: true, Seed: 6, Window: 50, Steps: true},
 		{Kind: "run", Prog: errProg, Edits0: []c15edit{{5, "set"}}, Boe: false, Seed: 7, Window: 50, Steps: true},
+		// breakpoint histories with repeated edits
+		{Kind: "run", Prog: sixProg, Edits0: []c15edit{{3, "set"}, {5, "set"}, {3, "disable"}, {3, "disable"}}, Seed: 8, Window: 50},
+		{Kind: "run", Prog: sixProg, Edits0: []c15edit{{6, "disable"}, {6, "disable"}, {4, "set"}}, Seed: 9, Window: 50},
+		{Kind: "run", Prog: sixProg, Edits0: []c15edit{{3, "set"}, {3, "disable"}, {3, "disable"}, {3, "remove"}, {3, "set"}}, Seed: 10, Window: 100},
+		{Kind: "run", Prog: sixProg, Edits0: []c15edit{{2, "set"}, {2, "set"}, {2, "remove"}, {2, "remove"}, {4, "set"}, {2, "disable"}, {5, "set"}}, Seed: 11, Window: 0, EditLines: []int{2, 4, 5, 6}},
+		{Kind: "run", Prog: sixProg, Edits0: []c15edit{{2, "set"}}, Seed: 12, Window: 100, EditLines: []int{3, 5}},
+		// several threads suspended at the same time
+		{Kind: "stopall", Prog: sixProg, Edits0: []c15edit{{3, "set"}}, Seed: 13, Threads: 3},
+		{Kind: "contall", Prog: sixProg, Edits0: []c15edit{{3, "set"}, {5, "set"}}, Seed: 14, Threads: 3},
+		{Kind: "stopall", Prog: sinkProg, Edits0: []c15edit{{4, "set"}}, Seed: 15, Multi: true, Threads: 4},
+		{Kind: "contall", Prog: sinkProg, Edits0: []c15edit{{4, "set"}}, Seed: 16, Multi: true, Threads: 4},
 	}
 }
 
@@ -806,8 +855,233 @@ func runC15(c *Ctx) error {
 		}
 		scn.Boe = c.Rng.Intn(3) == 0
 		scn.Edits0 = c15edits0(c.Rng, len(scn.Prog), c.Rng.Intn(5) == 0)
+		if !scn.Multi && i%2 == 0 {
+			scn.EditLines, scn.Edits0 = c15history(c.Rng, len(scn.Prog))
+			c.Dist["edit_history_with_repetition"]++
+		}
+		if i%20 == 7 {
+			// several threads suspended at the same time, released by StopThreads or one by one
+			g := c15scn{Kind: []string{"stopall", "contall"}[c.Rng.Intn(2)], Seed: scn.Seed, Threads: 2 + c.Rng.Intn(3)}
+			n := 3 + c.Rng.Intn(4)
+			for l := 1; l <= n; l++ {
+				g.Prog = append(g.Prog, fmt.Sprintf("log(%d)", l))
+			}
+			g.Edits0 = []c15edit{{1 + c.Rng.Intn(n), "set"}}
+			if g.Kind == "contall" && c.Rng.Intn(2) == 0 {
+				g.Edits0 = append(g.Edits0, c15edit{1 + c.Rng.Intn(n), "set"})
+			}
+			c15one(c, g)
+		}
 		c15one(c, scn)
 	}
 	c.Exhaustive = false
 	return nil
+}
+
+// ---- several threads suspended at the same time ----------------------------------------
+
+// c15group debugs several threads at once (scn.Threads evaluations of the program, each with its
+// own thread id and scope; or one program whose sink runs on the pool workers), lets them all
+// suspend at the breakpoints, waits until Status() reports them suspended simultaneously and then
+// either calls StopThreads once ("stopall": every one of them must leave its suspension) or
+// gives each its own Continue ("contall": each must be released by the continue addressed to it).
+func c15group(c *Ctx, scn c15scn) {
+	logger := util.NewMemoryLogger(2000)
+	erp := interpreter.NewECALRuntimeProvider("c15", nil, logger)
+	real := interpreter.NewECALDebugger(scope.NewScope(scope.GlobalScope))
+	erp.Debugger = real
+	for _, e := range scn.Edits0 {
+		c15apply(real, e)
+	}
+	real.BreakOnError(false)
+	var mu sync.Mutex
+	suspended := map[uint64]int{} // passes of debug.suspend
+	resumed := map[uint64]int{}   // passes of debug.resumed
+	released := false             // contall: later suspensions are continued at once
+	verifhook.SetHandler(func(point string, args ...interface{}) {
+		if len(args) == 0 {
+			return
+		}
+		tid, ok := args[0].(uint64)
+		if !ok {
+			return
+		}
+		mu.Lock()
+		defer mu.Unlock()
+		switch point {
+		case "debug.suspend":
+			suspended[tid]++
+			if released {
+				go func() {
+					for i := 0; i < 2000 && !c15reported(real, tid); i++ {
+						time.Sleep(time.Millisecond)
+					}
+					real.Continue(tid, util.Resume)
+				}()
+			}
+		case "debug.resumed":
+			resumed[tid]++
+		}
+	})
+	defer verifhook.SetHandler(nil)
+
+	src := strings.Join(scn.Prog, "\n")
+	n := scn.Threads
+	if scn.Multi {
+		n = 1
+	}
+	done := make(chan bool, n)
+	for i := 0; i < n; i++ {
+		ast, err := parser.ParseWithRuntime(c15src, src, erp) // one tree per thread, parsed one after the other
+		if err == nil {
+			err = ast.Runtime.Validate()
+		}
+		if err != nil {
+			c.Dist["skipped_group_program_invalid"]++
+			erp.Cron.Stop()
+			return
+		}
+		tid := erp.NewThreadID()
+		go func() {
+			defer func() { recover(); done <- true }()
+			ast.Runtime.Eval(scope.NewScope(scope.GlobalScope), make(map[string]interface{}), tid)
+			real.RecordThreadFinished(tid)
+		}()
+	}
+	// wait until the expected number of threads is suspended at the same time
+	held := func() []uint64 {
+		mu.Lock()
+		defer mu.Unlock()
+		var l []uint64
+		for t, k := range suspended {
+			if k > resumed[t] {
+				l = append(l, t)
+			}
+		}
+		sort.Slice(l, func(i, j int) bool { return l[i] < l[j] })
+		return l
+	}
+	allReported := func(l []uint64) bool {
+		for _, t := range l {
+			if !c15reported(real, t) {
+				return false
+			}
+		}
+		return true
+	}
+	var set []uint64
+	for i := 0; i < 3000; i++ {
+		set = held()
+		if (len(set) >= scn.Threads || (i > 1500 && len(set) >= 2)) && allReported(set) {
+			break
+		}
+		time.Sleep(time.Millisecond)
+	}
+	cleanup := func() {
+		mu.Lock()
+		released = false
+		mu.Unlock()
+		for i := 0; i < 5; i++ {
+			real.StopThreads(0)
+			time.Sleep(2 * time.Millisecond)
+		}
+		guarded(2*time.Second, func() (interface{}, error) { erp.Processor.Finish(); return nil, nil })
+		erp.Cron.Stop()
+	}
+	if len(set) < 2 || !allReported(set) {
+		c.Dist["skipped_group_fewer_than_two_suspended"]++
+		cleanup()
+		return
+	}
+	before := map[uint64]int{}
+	mu.Lock()
+	for _, t := range set {
+		before[t] = resumed[t]
+	}
+	if scn.Kind == "contall" {
+		released = true
+	}
+	mu.Unlock()
+	cmdOK := true
+	func() {
+		defer func() {
+			if p := recover(); p != nil {
+				cmdOK = false
+				c.Notes = append(c.Notes, "a debugger command panicked (C16): "+fmt.Sprint(p))
+			}
+		}()
+		if scn.Kind == "stopall" {
+			real.StopThreads(0)
+		} else {
+			for _, t := range set {
+				real.Continue(t, util.Resume)
+			}
+		}
+	}()
+	stuck := func() []uint64 {
+		mu.Lock()
+		defer mu.Unlock()
+		var l []uint64
+		for _, t := range set {
+			if resumed[t] == before[t] {
+				l = append(l, t)
+			}
+		}
+		return l
+	}
+	var left []uint64
+	for round := 0; round < 2; round++ { // a second full bound before anything is concluded
+		deadline := time.Now().Add(c15bound)
+		for left = stuck(); len(left) > 0 && time.Now().Before(deadline); left = stuck() {
+			time.Sleep(2 * time.Millisecond)
+		}
+		if len(left) == 0 {
+			break
+		}
+	}
+	c.Dist["scenario_"+scn.Kind]++
+	c.Dist[fmt.Sprintf("group_%d_suspended_together", len(set))]++
+	key := fmt.Sprintf("%v|%v|%v|%v|%v", scn.Kind, scn.Prog, scn.Edits0, scn.Threads, scn.Multi)
+	if cmdOK && len(left) > 0 {
+		if scn.Kind == "stopall" {
+			c.Violate("stop-leaves-suspended", fmt.Sprintf("%d threads were reported as suspended at the same time; after StopThreads returned %d of them did not leave their suspension within %v", len(set), len(left), 2*c15bound), scn)
+		} else {
+			c.Violate("lost-wakeup", fmt.Sprintf("%d threads were reported as suspended at the same time and each was given its own Continue; %d of them did not leave their suspension within %v", len(set), len(left), 2*c15bound), scn)
+		}
+	} else if cmdOK {
+		// the model's prediction for the forced schedule: all suspend and wait, the command regions
+		// run, every thread takes its own two steps
+		var sched []string
+		line := scn.Edits0[0].Line
+		for i := range set {
+			sched = append(sched, fmt.Sprintf("LSuspend %d %d; LThread %d; LThread %d", i, line, i, i))
+		}
+		for i := range set {
+			if scn.Kind == "stopall" {
+				sched = append(sched, fmt.Sprintf("LStopOne %d", i))
+			} else {
+				sched = append(sched, fmt.Sprintf("LContBegin %d KResume; LContFinish 0", i))
+			}
+		}
+		for i := range set {
+			sched = append(sched, fmt.Sprintf("LThread %d; LThread %d", i, i))
+		}
+		for i := range set {
+			id := c.NewID()
+			c.AddCase(id, fmt.Sprintf("ProtoCase %d [%s] %d true", id, strings.Join(sched, "; "), i), scn, key, true)
+		}
+	}
+	c.Count(key, true, scn)
+	if scn.Kind == "contall" {
+		// the programs must now run to their end (later suspensions are continued at once)
+		for i := 0; i < n; i++ {
+			select {
+			case <-done:
+			case <-time.After(c15bound):
+				c.Dist["inconclusive_timeout"]++
+				i = n
+			}
+		}
+	}
+	cleanup()
 }
